@@ -239,17 +239,22 @@ enum Val { As(AsBlocks), Ip(IpBlocks) }
 fn asn(x: u128) -> Asn { Asn::from_u32(x as u32) }
 fn addr(x: u128) -> Addr { Addr::from_bits(x) }
 
-fn repr_of(v: &Val) -> Repr {
-    match v {
-        Val::As(b) => b.iter().map(|x| match x {
-            AsBlock::Id(a) => Blk { var: 0, min: a.into_u32() as u128, max: a.into_u32() as u128, len: 0 },
-            AsBlock::Range(r) => Blk { var: 1, min: r.min().into_u32() as u128, max: r.max().into_u32() as u128, len: 0 },
-        }).collect(),
-        Val::Ip(b) => b.iter().map(|x| match x {
-            IpBlock::Prefix(p) => Blk { var: 0, min: p.min().to_bits(), max: p.max().to_bits(), len: p.addr_len() },
-            IpBlock::Range(r) => Blk { var: 1, min: r.min().to_bits(), max: r.max().to_bits(), len: 0 },
-        }).collect(),
+fn blk_as(x: AsBlock) -> Blk {
+    match x {
+        AsBlock::Id(a) => Blk { var: 0, min: a.into_u32() as u128, max: a.into_u32() as u128, len: 0 },
+        AsBlock::Range(r) => Blk { var: 1, min: r.min().into_u32() as u128, max: r.max().into_u32() as u128, len: 0 },
     }
+}
+
+fn blk_ip(x: IpBlock) -> Blk {
+    match x {
+        IpBlock::Prefix(p) => Blk { var: 0, min: p.min().to_bits(), max: p.max().to_bits(), len: p.addr_len() },
+        IpBlock::Range(r) => Blk { var: 1, min: r.min().to_bits(), max: r.max().to_bits(), len: 0 },
+    }
+}
+
+fn repr_of(v: &Val) -> Repr {
+    match v { Val::As(b) => b.iter().map(blk_as).collect(), Val::Ip(b) => b.iter().map(blk_ip).collect() }
 }
 
 /// Literal identity of the stored representation with an expected one (no allocation).
@@ -865,6 +870,59 @@ fn queries(ctx: &Ctx, dom: &Dom, have: &[Option<Val>]) {
             }
         }
         tally(&mut oc, m != 0, "round-trip-nonempty", "round-trip-empty");
+        // API siblings: predicates, by-value encoders, take_opt / skip_opt decoders, typed blocks --
+        // each must agree with the sibling the checks above already cover
+        evals += 1;
+        match v {
+            Val::As(b) => { ctx.check(&format!("{pfx}.siblings"), st, || {
+                for blk in b.iter() { if blk.is_whole_range() != (blk == AsBlock::all()) { return Err(format!("is_whole_range of {blk} is {}", blk.is_whole_range())) } }
+                let by_ref = encode::sequence(b.encode_ref()).to_captured(Mode::Der);
+                let by_val = encode::sequence(b.clone().encode()).to_captured(Mode::Der);
+                if by_ref.as_slice() != by_val.as_slice() { return Err("encode(self) and encode_ref(&self) write different octets".into()) }
+                let stored: Vec<Blk> = b.iter().map(blk_as).collect();
+                let taken: Vec<Blk> = Mode::Der.decode(by_ref.as_slice(), |c| c.take_sequence(|c| { let mut v = Vec::new(); while let Some(x) = AsBlock::take_opt_from(c)? { v.push(blk_as(x)) } Ok(v) })).map_err(|e| format!("AsBlock::take_opt_from: {e}"))?;
+                let skipped: usize = Mode::Der.decode(by_ref.as_slice(), |c| c.take_sequence(|c| { let mut n = 0; while AsBlock::skip_opt_in(c)?.is_some() { n += 1 } Ok(n) })).map_err(|e| format!("AsBlock::skip_opt_in: {e}"))?;
+                if taken != stored { return Err("AsBlock::take_opt_from yields other blocks than the stored ones".into()) }
+                if skipped != stored.len() { return Err(format!("AsBlock::skip_opt_in skipped {skipped} of {} blocks", stored.len())) }
+                Ok(()) }); }
+            Val::Ip(b) => { ctx.check(&format!("{pfx}.siblings"), st, || {
+                let v4 = k == Kind::V4;
+                let fam = if v4 { AddressFamily::Ipv4 } else { AddressFamily::Ipv6 };
+                for blk in b.iter() {
+                    let whole = blk == IpBlock::all();
+                    if blk.is_slash_zero() != whole { return Err(format!("is_slash_zero of a stored block is {}", blk.is_slash_zero())) }
+                    // the family-typed block parsed from the block's own text
+                    if v4 {
+                        let t = blk.display_v4().to_string();
+                        let x = Ipv4Block::from_str(&t).map_err(|e| format!("Ipv4Block {t:?}: {e}"))?;
+                        if x.min() != blk.min().to_v4() || x.max() != blk.max().to_v4() || x.is_slash_zero() != blk.is_slash_zero() || x.to_string() != t || IpBlock::from(x.clone()) != blk { return Err(format!("Ipv4Block {t:?} reports {}-{} slash_zero={}", x.min(), x.max(), x.is_slash_zero())) }
+                        if whole && (x != Ipv4Block::all() || !Ipv4Block::all().is_slash_zero()) { return Err("Ipv4Block::all() is not the block covering everything".into()) }
+                    } else {
+                        let t = blk.display_v6().to_string();
+                        let x = Ipv6Block::from_str(&t).map_err(|e| format!("Ipv6Block {t:?}: {e}"))?;
+                        if x.min() != blk.min().to_v6() || x.max() != blk.max().to_v6() || x.is_slash_zero() != blk.is_slash_zero() || x.to_string() != t || IpBlock::from(x.clone()) != blk { return Err(format!("Ipv6Block {t:?} reports {}-{} slash_zero={}", x.min(), x.max(), x.is_slash_zero())) }
+                        if whole && (x != Ipv6Block::all() || !Ipv6Block::all().is_slash_zero()) { return Err("Ipv6Block::all() is not the block covering everything".into()) }
+                    }
+                }
+                let by_ref = b.encode_ref().to_captured(Mode::Der);
+                let by_val = b.clone().encode().to_captured(Mode::Der);
+                if by_ref.as_slice() != by_val.as_slice() { return Err("encode(self) and encode_ref(&self) write different octets".into()) }
+                let stored: Vec<Blk> = b.iter().map(blk_ip).collect();
+                let plain: Vec<Blk> = Mode::Der.decode(by_ref.as_slice(), |c| c.take_sequence(|c| { let mut v = Vec::new(); while let Some(x) = IpBlock::take_opt_from(c)? { v.push(blk_ip(x)) } Ok(v) })).map_err(|e| format!("IpBlock::take_opt_from: {e}"))?;
+                let with_fam: Vec<Blk> = Mode::Der.decode(by_ref.as_slice(), |c| c.take_sequence(|c| { let mut v = Vec::new(); while let Some(x) = IpBlock::take_opt_from_with_family(c, fam)? { v.push(blk_ip(x)) } Ok(v) })).map_err(|e| format!("IpBlock::take_opt_from_with_family: {e}"))?;
+                if plain != stored || with_fam != stored { return Err("IpBlock::take_opt_from[_with_family] yields other blocks than the stored ones".into()) }
+                // address family: take_from / take_opt_from / skip_opt_in on the same IPAddressFamily
+                let famseq = b.encode_family(fam).to_captured(Mode::Der);
+                let a = Mode::Der.decode(famseq.as_slice(), |c| c.take_sequence(|c| { let f = AddressFamily::take_from(c)?; let x = IpBlocks::take_from_with_family(c, fam)?; Ok((f, x, AddressFamily::take_opt_from(c)?)) })).map_err(|e| format!("AddressFamily::take_from: {e}"))?;
+                let o = Mode::Der.decode(famseq.as_slice(), |c| c.take_sequence(|c| { let f = AddressFamily::take_opt_from(c)?; let x = IpBlocks::take_from_with_family(c, fam)?; Ok((f, x, AddressFamily::skip_opt_in(c)?)) })).map_err(|e| format!("AddressFamily::take_opt_from: {e}"))?;
+                let sk = Mode::Der.decode(famseq.as_slice(), |c| c.take_sequence(|c| { let f = AddressFamily::skip_opt_in(c)?; let x = IpBlocks::take_from_with_family(c, fam)?; Ok((f, x)) })).map_err(|e| format!("AddressFamily::skip_opt_in: {e}"))?;
+                if a.0 != fam || o.0 != Some(a.0) || sk.0 != Some(()) || a.2.is_some() || o.2.is_some() { return Err("AddressFamily::take_from / take_opt_from / skip_opt_in disagree on the same octets".into()) }
+                if &a.1 != b || &o.1 != b || &sk.1 != b { return Err("the blocks after the address family do not read back".into()) }
+                // typed collection -> certificate resources
+                let res = if v4 { Ipv4Blocks::from(b.clone()).to_ip_resources() } else { Ipv6Blocks::from(b.clone()).to_ip_resources() };
+                if res != IpResources::blocks(b.clone()) { return Err("to_ip_resources differs from IpResources::blocks".into()) }
+                Ok(()) }); }
+        }
         sp.evals(evals); sp.nontrivial(nontriv); sp.merge_outcomes(&oc);
     });
     // prefix decomposition of every probe block (once per domain)
